@@ -338,3 +338,6 @@ def run(R, ctx):
     links(R, ctx, roles)
     stable(R, ctx, roles)
     deps(R, ctx)
+    # the stale output of a removed source is scheduled for deletion whatever happened to the item since it was written
+    from . import c11
+    c11.deletion_list(R, ctx, rid="C10.delete", status_rid="C10.delete")
